@@ -43,7 +43,7 @@ macro_rules! c04_pert {
 }
 //@ id: c04_pert_f64
 //@ prop: C04
-//@ tier: quick
+//@ tier: thorough
 //@ cap: 600
 //@ funcs: Pert::<f64>::new; PertBuilder::with_shape; with_mode; Beta::new
 //@ bounds: every (min, max, mode, shape) with magnitudes <= 1e150 (or NaN), max != min
